@@ -48,6 +48,18 @@ def rule_r1(ck, prog, f, rule='C05.R1'):
         raise AnalysisBroken('%s: construction of TraceFlags from the flags byte not found' % short(f))
     sink = sinks[0]
     vid = strip_casts(f, sink.n['args'][0])['id']
+    # the flags byte handed through a helper of the program (`flags = WithSampledBit(flags, decision)`): the bit evaluator works on
+    # the expressions of this function only - it says so instead of reporting bits it cannot see
+    for n in f.nodes:
+        for (v_, st_, vx_) in (defs_in_node(f, n) if n['k'] in ('binop', 'declstmt') else []):
+            if v_ != vid or vx_ is None or vx_ < 0:
+                continue
+            helpers = [f.nodes[i] for i in list(f.subtree(vx_)) + [vx_] if f.nodes[i]['k'] == 'call' and f.nodes[i].get('ck') in prog.funcs and
+                       prog.funcs[f.nodes[i]['ck']].blocks and not strip_targs(f.nodes[i].get('c', '')).startswith('opentelemetry::trace::TraceFlags')]
+            if helpers and any(f.nodes[j]['k'] == 'ref' and f.nodes[j].get('id') == vid for h in helpers for a in h.get('args', []) if a is not None and a >= 0 for j in list(f.subtree(a)) + [a]):
+                ck.inconclusive(rule, f, 'sampled-bit-equals-decision', helpers[0], 'the flags byte is rewritten by the helper %s: the bit-provenance evaluator does not enter helpers' % strip_targs(helpers[0]['c']).rsplit('::', 1)[-1])
+                ck.inconclusive(rule, f, 'only-level-1-bits', helpers[0], 'see sampled-bit-equals-decision')
+                return
 
     def is_parent_flags(idx):
         for l in leaves(f, idx, follow_locals=False):
